@@ -1114,6 +1114,19 @@ fn gen_arg(rng: &mut Rng, name: &str) -> Arg {
     }
 }
 
+fn run_replay(cx: &mut Ctx, r: &Value, src: &str) {
+    let img = Image::from_json(&r["img"]);
+    let base: u64 = r["base"].as_str().unwrap().parse().unwrap();
+    let cap: u64 = r["cap"].as_str().unwrap().parse().unwrap();
+    let arg = Arg::parse(r["arg"].as_str().unwrap());
+    let name = r["name"].as_str().unwrap();
+    if r["op"] == "rt" {
+        do_rt(cx, &img, name, r["getter"].as_str().unwrap(), base, cap, &arg, src);
+    } else {
+        do_acc(cx, &img, name, base, cap, r["broken"].as_bool().unwrap(), &arg, src);
+    }
+}
+
 fn main() {
     let args = parse_args();
     let mut cx = Ctx {
@@ -1127,19 +1140,20 @@ fn main() {
 
     if let Some(path) = &args.replay {
         let v: Value = serde_json::from_str(&std::fs::read_to_string(path).unwrap()).unwrap();
-        let r = &v["replay"];
-        let img = Image::from_json(&r["img"]);
-        let base: u64 = r["base"].as_str().unwrap().parse().unwrap();
-        let cap: u64 = r["cap"].as_str().unwrap().parse().unwrap();
-        let arg = Arg::parse(r["arg"].as_str().unwrap());
-        let name = r["name"].as_str().unwrap();
-        if r["op"] == "rt" {
-            do_rt(&mut cx, &img, name, r["getter"].as_str().unwrap(), base, cap, &arg, "replay");
-        } else {
-            do_acc(&mut cx, &img, name, base, cap, r["broken"].as_bool().unwrap(), &arg, "replay");
-        }
+        run_replay(&mut cx, &v["replay"], "replay");
         cx.rep.write(&args);
         return;
+    }
+
+    // minimised past failures first
+    let mut corpus: Vec<_> = std::fs::read_dir("/verif/corpus/C13").map(|d| d.flatten().map(|e| e.path()).collect()).unwrap_or_default();
+    corpus.sort();
+    for path in corpus {
+        if path.extension().map_or(true, |e| e != "json") {
+            continue;
+        }
+        let v: Value = serde_json::from_str(&std::fs::read_to_string(&path).unwrap()).unwrap();
+        run_replay(&mut cx, &v["replay"], "corpus");
     }
 
     // the model must know exactly the accessors exercised here (a new accessor in the
